@@ -120,7 +120,9 @@ def _finish_violation(scn: Any, modname: str, desc: Any, ex: sched.Execution, v:
             v["signature"] = x["signature"]
             v["detail"] = x["detail"]
             break
-    v["signature"]["windows"] = windows(exm)
+    lw = getattr(scn, "logical_windows", None)
+    v["signature"]["windows"] = lw(exm) if lw is not None else windows(exm)
+    v["detail"]["code_windows"] = windows(exm)
     v["detail"]["schedule"] = [
         {"at": i, "thread": p.tid, "kind": p.kind, "info": p.info, "ran_instead": p.cands[p.chosen]}
         for i, p in enumerate(exm.trace) if p.chosen
